@@ -112,7 +112,7 @@ func c12Gen(o *out, r *rng, tier string) {
 // ---- C12R: concurrent request streams while a history is applied (meant for the -race build) ----
 // many Upgrade values that are not "websocket": the request walks them between loading the state and routing
 var c12Upgrade = func() []string {
-	v := make([]string, 4000)
+	v := make([]string, 20000)
 	for i := range v {
 		v[i] = "h2c"
 	}
@@ -121,7 +121,7 @@ var c12Upgrade = func() []string {
 
 func c12RaceGen(o *out, r *rng, tier string) {
 	e := c11Setup()
-	n := 40
+	n := 24
 	if tier == "thorough" {
 		n = 400
 	}
@@ -132,8 +132,9 @@ func c12RaceGen(o *out, r *rng, tier string) {
 		for j := range ops {
 			ops[j] = c11Alphabet[r.intn(len(c11Alphabet))]
 		}
-		m := e.newMux()
+		m, ref := e.newMux(), e.newMux()
 		stop := make(chan struct{})
+		var gate sync.RWMutex // the streams hold it per request; the comparison takes it exclusively
 		var wg sync.WaitGroup
 		for g := 0; g < 4; g++ {
 			wg.Add(1)
@@ -146,11 +147,13 @@ func c12RaceGen(o *out, r *rng, tier string) {
 					default:
 					}
 					var ans string
+					gate.RLock()
 					if k%2 == 0 {
 						ans = c11GRPC(m, c11FullName(c11Methods[k%len(c11Methods)]))
 					} else {
 						ans = c11HTTPWith(m, e.targets[k%len(e.targets)], c12Upgrade)
 					}
+					gate.RUnlock()
 					requests.Add(1)
 					if strings.HasPrefix(ans, "E") {
 						bad.Add(1)
@@ -159,41 +162,40 @@ func c12RaceGen(o *out, r *rng, tier string) {
 				}
 			}(g)
 		}
-		for _, op := range ops {
-			e.apply(m, op)
+		for i, op := range ops {
+			e.apply(m, op) // with the streams running
+			// then, with the traffic held, the mux answers as a mux that went through the same operations alone: nothing a
+			// request resolved against an earlier state may outlive the publication of a later one
+			gate.Lock()
+			e.apply(ref, op)
+			want := map[string]map[string]bool{}
+			for _, kv := range strings.Split(e.probe(ref), ",") {
+				k, v, _ := strings.Cut(kv, "=")
+				want[k] = map[string]bool{}
+				for _, a := range strings.Split(v, "+") {
+					want[k][a] = true
+				}
+			}
+			for _, kv := range strings.Split(e.probe(m), ",") {
+				k, v, _ := strings.Cut(kv, "=")
+				for _, a := range strings.Split(v, "+") {
+					if !want[k][a] {
+						// the cheap probe stops after two distinct answers: ask the reference again, without stopping early
+						for t := 0; t < 300 && !want[k][a]; t++ {
+							want[k][e.probeKey(ref, k)] = true
+						}
+					}
+					if !want[k][a] {
+						bad.Add(1)
+						firstBad.CompareAndSwap(nil, fmt.Sprintf("%s -> after operation %d, with the traffic held, probe %s is answered %s; a mux that went through the same operations alone answers %v",
+							strings.Join(ops, ","), i+1, k, a, want[k]))
+					}
+				}
+			}
+			gate.Unlock()
 		}
 		close(stop)
 		wg.Wait()
-		// with the traffic stopped, the mux answers as a mux that went through the same history alone: nothing a
-		// request resolved against an earlier state may outlive the publication of a later one
-		ref := e.newMux()
-		for _, op := range ops {
-			e.apply(ref, op)
-		}
-		want := map[string]map[string]bool{}
-		for _, kv := range strings.Split(e.probe(ref), ",") {
-			k, v, _ := strings.Cut(kv, "=")
-			want[k] = map[string]bool{}
-			for _, a := range strings.Split(v, "+") {
-				want[k][a] = true
-			}
-		}
-		for _, kv := range strings.Split(e.probe(m), ",") {
-			k, v, _ := strings.Cut(kv, "=")
-			for _, a := range strings.Split(v, "+") {
-				if !want[k][a] {
-					// the cheap probe stops after two distinct answers: ask the reference again, without stopping early
-					for i := 0; i < 300 && !want[k][a]; i++ {
-						want[k][e.probeKey(ref, k)] = true
-					}
-				}
-				if !want[k][a] {
-					bad.Add(1)
-					firstBad.CompareAndSwap(nil, fmt.Sprintf("%s -> after the history, with the traffic stopped, probe %s is answered %s; a mux that went through the same history alone answers %v",
-						strings.Join(ops, ","), k, a, want[k]))
-				}
-			}
-		}
 	}
 	fb, _ := firstBad.Load().(string)
 	fmt.Fprintf(os.Stdout, "C12R histories=%d requests=%d bad=%d first=%q\n", n, requests.Load(), bad.Load(), fb)
